@@ -101,6 +101,14 @@ CLAIMED = {
             'stub system, all networks with <=5 buses and <=4 branches vs union-find; F24), labelled bounded, not counted.',
             'DESIGN.md 4/C12', 'ghost relation for attachment; find_idx contract from C19; connectivity closure not proved',
             'contract-based deductive verification (symbolic execution + SMT) plus a labelled bounded stand-in'),
+    'C11': ('proof',
+            'System.calc_pu_coeff: every parameter flagged with a quantity kind receives the textbook ratio (power, voltage, '
+            'current, impedance, admittance, dc analogues; default bases when Sn/Vn/bus are absent), pointwise; '
+            'NumParam.set_pu_coeff / restore write v in place; Model.set writes exactly element uid(idx) in place and '
+            'propagates a time constant to dae.Tf and the Teye diagonal at the state address; Model.alter writes v and vin '
+            'consistently for both attr modes; GroupBase.alter delegates per device; as_dict(vin=True) exports vin.',
+            'DESIGN.md 4/C11', 'lookups from C10/C19; pointwise NumPy semantics; writers (xlsx/json) not decided',
+            'contract-based deductive verification: symbolic execution with call-site obligations + SMT'),
 }
 
 ALL = ['C%02d' % i for i in range(1, 21)]
